@@ -1999,7 +1999,8 @@ size_t rtosc_scan_arg_val(const char* src,
 
         bool has_delta = true;
         int32_t num;
-        if(infinite_range && llhsarg_is_useless)
+        if(infinite_range && (llhsarg_is_useless ||
+                              !strchr(numeric_range_types(), lhsarg.type)))
         {
             has_delta = false;
             num = 0; // suppress compiler warnings
